@@ -41,7 +41,7 @@ CLASS_LISTS = [[], [4], [3, 4], [4, 4], [7], [1], [37], [31], [4, 7, 3], [7, 37]
 SUB_LISTS = [[], [0x40c], [0x40c, 0x40e], [0x401]]      # BSD subclasses only (the scope of the statement)
 
 
-def gen_dump(rnd, big=False, allow_zero_tid=True, residue_case=False, world=None, orphans=0.0, samples=0.0, learn=0.0):
+def gen_dump(rnd, big=False, allow_zero_tid=True, residue_case=False, world=None, orphans=0.0, samples=0.0, learn=0.0, logs=False):
     w = world or World(rnd, big_tids=False, allow_zero_tid=allow_zero_tid)
     g = gen.ProgGen(w, rnd, ntids=3, noise=0.02)
     pids = {1: 11, 2: 12, 3: rnd.choice([13, 0])}
@@ -101,6 +101,11 @@ def gen_dump(rnd, big=False, allow_zero_tid=True, residue_case=False, world=None
         items = [smp(), [w.img(t, rnd.randrange(0, 3), rnd.randrange(1, 6))], smp()] + items
     stream = [e for it in items for e in it]
     tmap = [(t, pids[t], names[pids[t]]) for t in rnd.sample([1, 2, 3], rnd.randrange(0, 4))]
+    if logs:
+        # a version-3 dump with log records (thread 0 = no thread; a record naming a process and a thread extends the tables)
+        lg = [(rnd.choice([0, 1, 2, 3, 5]), rnd.choice([11, 12, 14, 0, 44]), rnd.choice(['alpha', 'beta', '', 'kernel_task', 'logger', '12']))
+              for _ in range(rnd.randrange(0, 7))]
+        return w, Dump(w, stream, tmap, lg, nchunks=rnd.choice([1, 2, 3]))
     return w, Dump(w, stream, tmap)
 
 
